@@ -379,7 +379,7 @@ def tlaps(module, timeout=600):
     before = provers()
     proc = None
     try:
-        proc = subprocess.Popen(["tlapm", "--threads", "8", "--cleanfp", module + ".tla"], cwd=d, stdout=subprocess.PIPE, stderr=subprocess.STDOUT,
+        proc = subprocess.Popen(["tlapm", "--threads", "8", "--cleanfp", "-I", "..", module + ".tla"], cwd=d, stdout=subprocess.PIPE, stderr=subprocess.STDOUT,
                                 text=True, start_new_session=True)
         out, _ = proc.communicate(timeout=timeout)
     except FileNotFoundError:
